@@ -31,12 +31,30 @@ Lemma gen_date_validates_agree : model_date_validates_calendar = SwitchGen.date_
 Proof. vm_compute. reflexivity. Qed.
 Lemma gen_depth_guard_agree : model_decode_value_depth_guard = SwitchGen.decode_value_depth_guard /\ max_nesting_depth = SwitchGen.max_nesting_depth.
 Proof. vm_compute. split; reflexivity. Qed.
-Lemma gen_decimal_exponent_agree : max_decimal_exponent = SwitchGen.max_decimal_exponent /\ SwitchGen.decimal_exponent_guard = true.
+Lemma gen_decimal_exponent_agree : max_decimal_exponent = SwitchGen.max_decimal_exponent /\ model_decimal_exponent_guard = SwitchGen.decimal_exponent_guard.
 Proof. vm_compute. split; reflexivity. Qed.
 Lemma gen_oneof_conflict_agree : model_create_field_checks_oneof = SwitchGen.create_field_checks_oneof.
 Proof. vm_compute. reflexivity. Qed.
 Lemma gen_leaf_map_dup_agree : model_leaf_map_dup_key_rejected = SwitchGen.leaf_map_dup_key_rejected.
 Proof. vm_compute. reflexivity. Qed.
+Lemma gen_value_kind_checked_agree : model_value_kind_checked = SwitchGen.value_kind_checked.
+Proof. vm_compute. reflexivity. Qed.
+
+(* every explicit panic( the translator finds in the decoder's files has been reviewed *)
+Definition site_eqb (a b : string * string * string) : bool :=
+  String.eqb (fst (fst a)) (fst (fst b)) && String.eqb (snd (fst a)) (snd (fst b)) && String.eqb (snd a) (snd b).
+Lemma gen_panic_sites_reviewed :
+  forallb (fun s => existsb (fun r => site_eqb s (fst r)) reviewed_panic_sites) SwitchGen.panic_sites = true.
+Proof. vm_compute. reflexivity. Qed.
+
+(* the outer switch of scalarReflectFromGo has an arm for every kind the model converts, and no arm
+   the model does not know (\"Any\": a scalar schema of type any is never built by the reflector) *)
+Lemma gen_scalar_kinds_agree :
+  forallb (fun k => existsb (String.eqb (kind_group k)) SwitchGen.scalar_kinds) all_scalar_kinds = true /\
+  forallb (fun s => String.eqb s "Any" || String.eqb s "default" ||
+                    existsb (fun k => String.eqb (kind_group k) s) all_scalar_kinds) SwitchGen.scalar_kinds = true.
+Proof. vm_compute. split; reflexivity. Qed.
+
 Lemma gen_set_value_clears_agree : model_set_value_clears_invalid = SwitchGen.set_value_clears_invalid.
 Proof. vm_compute. reflexivity. Qed.
 
@@ -411,21 +429,24 @@ Section Totality.
     repeat split; intros; lia.
   Qed.
 
-  (* Codec.JSONToProto on any token stream: never a panic, and S (length ts) fuel suffices *)
-  Lemma decode_tokens_safe root ts : safe (decode_tokens orc e me (S (length ts)) root ts).
+  (* Codec.JSONToProto on any token stream: never a panic, and any fuel above the token count suffices *)
+  Lemma decode_tokens_safe_fuel fuel root ts : (length ts < fuel)%nat -> safe (decode_tokens orc e me fuel root ts).
   Proof.
-    unfold decode_tokens. destruct (lookup e root) as [[props|props|]|]; try exact I.
+    intros Hfuel. unfold decode_tokens. destruct (lookup e root) as [[props|props|]|]; try exact I.
     - apply safe_bind; auto; [apply expect_spec|]. intros r Hr. apply expect_len in Hr.
-      destruct (level_all (S (length ts))) as (_ & Hob & _).
+      destruct (level_all fuel) as (_ & Hob & _).
       assert (Hb := Hob 0%N props r [] [] ltac:(lia)).
-      destruct (object_body orc e me (S (length ts)) 0 props r [] []) as [[m' r']| | |]; cbn [okish] in Hb; try contradiction; [|exact I].
+      destruct (object_body orc e me fuel 0 props r [] []) as [[m' r']| | |]; cbn [okish] in Hb; try contradiction; [|exact I].
       cbn [obind fst snd]. apply safe_bind; auto; [apply expect_spec|]. intros; exact I.
     - apply safe_bind; auto; [apply expect_spec|]. intros r Hr. apply expect_len in Hr.
-      destruct (level_all (S (length ts))) as (_ & _ & Hoo & _).
+      destruct (level_all fuel) as (_ & _ & Hoo & _).
       assert (Hb := Hoo 0%N props r [] [] [] None ltac:(lia)).
-      destruct (oneof_body orc e me (S (length ts)) 0 props r [] [] [] None) as [[m' r']| | |]; cbn [okish] in Hb; try contradiction; [|exact I].
+      destruct (oneof_body orc e me fuel 0 props r [] [] [] None) as [[m' r']| | |]; cbn [okish] in Hb; try contradiction; [|exact I].
       cbn [obind fst snd]. apply safe_bind; auto; [apply expect_spec|]. intros; exact I.
   Qed.
+
+  Lemma decode_tokens_safe root ts : safe (decode_tokens orc e me (S (length ts)) root ts).
+  Proof. apply decode_tokens_safe_fuel. lia. Qed.
 End Totality.
 
 Lemma safe_iff {A} (o : outcome A) : safe o <-> is_panic o = false /\ o <> OutOfFuel.
@@ -456,4 +477,16 @@ Proof.
   intros H. unfold member_with.
   replace (max_nesting_depth <? d + 1)%N with true; [reflexivity|].
   symmetry. apply N.ltb_lt. lia.
+Qed.
+
+(* the fuel, i.e. the bound on the decoder's recursion, in terms of the input: a document of n bytes has
+   at most n tokens (JsonLexProofs.lex_length), so n + 1 suffices *)
+From J5V.proofs Require Import JsonLexProofs.
+Theorem decode_fuel_in_bytes orc e root bs :
+  (length (fst (lex bs)) <= length bs)%nat /\
+  is_panic (decode_tokens orc e (snd (lex bs)) (S (length bs)) root (fst (lex bs))) = false /\
+  decode_tokens orc e (snd (lex bs)) (S (length bs)) root (fst (lex bs)) <> OutOfFuel.
+Proof.
+  pose proof (lex_length bs) as Hl. split; [exact Hl|].
+  apply safe_iff. apply decode_tokens_safe_fuel. lia.
 Qed.
